@@ -1,4 +1,5 @@
 import PSO.Proofs.RaftDemo
+import PSO.Proofs.NodeSendCallbacks
 
 /-!
 # C02 — callback contract (cluster level)
@@ -87,6 +88,42 @@ theorem leader_appends_one_entry {N : Nat} {s s' : State} {n cmd : Nat}
     injection hs with hs; subst hs
     exact ⟨by simp, hg.2, fun k hk => by simp [setNode, hk]⟩
   · cases hs
+
+/-! ## Node level (`PSO.NodeSend`: `_applyCommand`, `_checkCommandsToApply`, `__onLeaderChanged`,
+`apply_command_response`, as executed by `driver nodesend` against the real handlers) -/
+
+/-- Each callback fires at most once: over any run of submissions, queue drains, leader changes and
+forwarding responses, with distinct callback ids, no id is emitted twice and an emitted id is no longer
+held anywhere. (The commit-time consumption in the apply loop is `PSO.C12.callback_once`.) -/
+theorem callback_at_most_once_local {cfg : PSO.NodeSend.Conf} {s s' : PSO.NodeSend.Node}
+    {es : List PSO.NodeSend.Ev} {o : List PSO.NodeSend.Out}
+    (h : PSO.NodeSend.evRun cfg s es = .ok (s', o))
+    (huniq : (PSO.NodeSend.submitted es ++ PSO.NodeSend.pendingIds s).Nodup) :
+    (PSO.NodeSend.cbIds o).Nodup ∧ ∀ id ∈ PSO.NodeSend.cbIds o, id ∉ PSO.NodeSend.pendingIds s' :=
+  PSO.NodeSend.callback_at_most_once_local h huniq
+
+/-- Definite failures (QUEUE_FULL, MISSING_LEADER, NOT_LEADER, REQUEST_DENIED) are produced only on paths
+that append nothing, register nothing and forward nothing — so the command is never applied anywhere. -/
+theorem failure_paths_append_nothing {cfg : PSO.NodeSend.Conf} {s s' : PSO.NodeSend.Node} {cmd : PSO.NodeSend.Cmd}
+    {cb : PSO.NodeSend.Cb} {o : List PSO.NodeSend.Out} {br : PSO.NodeSend.Branch}
+    (h : PSO.NodeSend.dispatchOne cfg s cmd cb = .ok (s', o, br)) (hf : ∃ x ∈ o, x.isFailure = true) :
+    s'.log = s.log ∧ s'.waitCommit = s.waitCommit ∧ s'.waitReply = s.waitReply ∧ ∀ x ∈ o, x.isForward = false :=
+  PSO.NodeSend.failure_paths_append_nothing h hf
+
+theorem queue_full_changes_nothing (cfg : PSO.NodeSend.Conf) (s : PSO.NodeSend.Node) (cmd : PSO.NodeSend.Cmd)
+    (cb : PSO.NodeSend.Cb) (hf : ∃ x ∈ (PSO.NodeSend.submit cfg s cmd cb).2, x.isFailure = true) :
+    (PSO.NodeSend.submit cfg s cmd cb).1 = s :=
+  PSO.NodeSend.queue_full_changes_nothing cfg s cmd cb hf
+
+/-- A callback is registered for commit iff its command was appended — and then under exactly the
+index and term of the new entry (the pair that `position_and_term_identify_entry` is about). -/
+theorem waiting_commit_registered_iff_appended {cfg : PSO.NodeSend.Conf} {s s' : PSO.NodeSend.Node}
+    {cmd : PSO.NodeSend.Cmd} {cb : PSO.NodeSend.Cb} {o : List PSO.NodeSend.Out} {br : PSO.NodeSend.Branch}
+    (h : PSO.NodeSend.dispatchOne cfg s cmd cb = .ok (s', o, br)) :
+    (s'.log = s.log ∧ s'.waitCommit = s.waitCommit) ∨
+    (∃ last, PSO.NodeSend.lastIdx? s.log = some last ∧ s'.log = s.log ++ [⟨cmd, last + 1, s.term⟩] ∧
+      s'.waitCommit = s.waitCommit ++ PSO.NodeSend.wcNew cb (last + 1) s.term) :=
+  PSO.NodeSend.waiting_commit_registered_iff_appended h
 
 /-- Non-vacuity: in the demo run node 1 (a follower) has applied command 7 at position 2, the same
 entry the leader applied. -/
